@@ -10,15 +10,28 @@ Producer: harness/layers_common.py.
   attach LID | detach NAME                    add_property_layer(layer) / remove_property_layer(name)
   lset LID C V | lget LID C                   layer.data[c] (= v)            (C = 1.2)
   cset NAME C V | cget NAME C                 cell attribute (new) / grid.properties[name] (legacy)
+  cset2 LID C V | cget2 LID C                 the cell attribute on a *second* grid the layer is added to as well (new)
   setcells LID V COND                         COND = - | gt:3 | lt:3 | ge:3 | le:3 | eq:3 | ne:3 | ufz
+  setfrom LID H COND                          set_cells(<array held as H>, COND): an array value, one entry per cell
   modify LID ufunc|fn OP V COND               OP = add sub mul max min and or xor (V int | none), neg not (V none)
-  modcell LID C ufunc|fn OP V                 legacy modify_cell
+  modcell LID C ufunc|fn OP V                 legacy modify_cell (V typed: the result is cast back into the array)
+  fromdata NAME H                             PropertyLayer.from_data(NAME, <array held as H>): a free-standing layer (copy)
   grab H LID | hget H C | hset H C V | hdump H
   dump LID | dumpn NAME | lsel LID COND | agg LID sum|max|min
+  gset NAME                                   grid.NAME = <a plain object>  (new: HasPropertyLayers.__setattr__)
   place A C | move A C | remove A | empties
   select oe=0|1 conds=a:gt:3,b:le:2|- ext=a:hi,b:lo|- masks=s1,l0101|- save=K|-
+  dtype LID                                   layer.data.dtype (bool|int|float)
+  nbmask K C IC R [moore|vn]                  get_neighborhood_mask(C, include_center=IC, radius=R), kept as saved mask K; the
+                                              geometry is the grid class and torus flag of the scenario line (new) resp. the
+                                              trailing moore|vn argument (legacy)
 
-DTYPE (bool|int|float) only matters to the harness (how values are encoded); the model is untyped.
+DTYPE (bool|int|float) is the element type of the new array.  A written value V is either a plain integer —
+a value of the layer's own dtype in that dtype's encoding (bool 0/1, int, float in quarters) — or a typed
+Python scalar `b:1`, `i:-3`, `f:10` (= 2.5) that numpy casts on the way in (lset, cset, hset, setcells, and the
+DEFAULT of create / new: `np.full`).
+`modify … OP T:V COND` with a typed operand is numpy's ufunc (or the same Python operator) with that scalar:
+the result type decides the dtype of the re-pointed layer.
 -/
 open Mesa.Layers
 
@@ -28,7 +41,40 @@ def parseCoord (s : String) : Option Coord := (s.splitOn ".").mapM (·.toNat?)
 
 def parseDims (s : String) : Option (List Nat) := (s.splitOn "x").mapM (·.toNat?)
 
-def isDtype (s : String) : Bool := s = "bool" || s = "int" || s = "float"
+def parseDType : String → Option DType
+  | "bool" => some .bool
+  | "int" => some .int
+  | "float" => some .float
+  | _ => none
+
+def fmtDType : DType → String
+  | .bool => "bool"
+  | .int => "int"
+  | .float => "float"
+
+/-- a typed Python scalar `b:0|1`, `i:N`, `f:N` (N quarters) -/
+def parseVal (s : String) : Option Val :=
+  match s.splitOn ":" with
+  | ["b", v] => if v = "0" then some ⟨.bool, 0⟩ else if v = "1" then some ⟨.bool, 1⟩ else none
+  | ["i", v] => v.toInt?.map (⟨.int, ·⟩)
+  | ["f", v] => v.toInt?.map (⟨.float, ·⟩)
+  | _ => none
+
+def parseWVal (s : String) : Option WVal :=
+  match s.toInt? with
+  | some v => some (.raw v)
+  | none => (parseVal s).map .py
+
+def parseUOp : String → Option UOp
+  | "add" => some .add
+  | "sub" => some .sub
+  | "mul" => some .mul
+  | "max" => some .max
+  | "min" => some .min
+  | "and" => some .land
+  | "or" => some .lor
+  | "xor" => some .lxor
+  | _ => none
 
 def parseCmp (k : String) (t : Int) : Option (Int → Bool) :=
   match k with
@@ -111,26 +157,52 @@ def parseMaskRef (dims : List Nat) (s : String) : Option MaskRef :=
 def kv (key s : String) : Option String :=
   if s.startsWith (key ++ "=") then some (s.drop (key.length + 1)).toString else none
 
-def parseOp (dims : List Nat) : List String → Option Op
-  | ["create", n, dt, d] => if isDtype dt then do pure (.create n (← d.toInt?)) else none
-  | ["new", n, dm, dt, d] => if isDtype dt then do pure (.newLayer n (← parseDims dm) (← d.toInt?)) else none
+/-- what the scenario line says about the grid's geometry: grid class (new) and torus flag -/
+structure Geo where
+  gridclass : String
+  torus : Bool
+
+def parseFlag (s : String) : Option Bool := if s = "1" then some true else if s = "0" then some false else none
+
+def parseOp (dims : List Nat) (impl : Impl) (geo : Geo) : List String → Option Op
+  | ["create", n, dt, d] => do pure (.create n (← parseDType dt) (← parseWVal d))
+  | ["new", n, dm, dt, d] => do pure (.newLayer n (← parseDims dm) (← parseDType dt) (← parseWVal d))
   | ["attach", l] => do pure (.attach (← l.toNat?))
   | ["detach", n] => some (.detach n)
-  | ["lset", l, c, v] => do pure (.layerSet (← l.toNat?) (← parseCoord c) (← v.toInt?))
+  | ["lset", l, c, v] => do pure (.layerSet (← l.toNat?) (← parseCoord c) (← parseWVal v))
   | ["lget", l, c] => do pure (.layerGet (← l.toNat?) (← parseCoord c))
-  | ["cset", n, c, v] => do pure (.cellSet n (← parseCoord c) (← v.toInt?))
+  | ["cset", n, c, v] => do pure (.cellSet n (← parseCoord c) (← parseWVal v))
   | ["cget", n, c] => do pure (.cellGet n (← parseCoord c))
-  | ["setcells", l, v, cond] => do pure (.setCells (← l.toNat?) (← v.toInt?) (← parseCond cond))
-  | ["modify", l, kind, op, v, cond] => do
-      pure (.modifyCells (← l.toNat?) (← parseOper kind op v) (← parseCond cond))
-  | ["modcell", l, c, kind, op, v] => do
-      pure (.modifyCell (← l.toNat?) (← parseCoord c) (← parseOper kind op v))
+  | ["cset2", l, c, v] => do pure (.cellSet2 (← l.toNat?) (← parseCoord c) (← parseWVal v))
+  | ["cget2", l, c] => do pure (.cellGet2 (← l.toNat?) (← parseCoord c))
+  | ["setcells", l, v, cond] => do pure (.setCells (← l.toNat?) (← parseWVal v) (← parseCond cond))
+  | ["setfrom", l, h, cond] => do pure (.setFrom (← l.toNat?) (← h.toNat?) (← parseCond cond))
+  | ["modify", l, kind, op, v, cond] =>
+      match parseVal v with
+      | some x => do
+          -- a typed operand: numpy's ufunc, or the same operator inside a Python function (whose result type is
+          -- uniform only for + - * and the logical operators)
+          let uop ← parseUOp op
+          if kind = "ufunc" || (kind = "fn" && uop != .max && uop != .min) then
+            pure (.modifyU (← l.toNat?) uop x (← parseCond cond))
+          else none
+      | none => do pure (.modifyCells (← l.toNat?) (← parseOper kind op v) (← parseCond cond))
+  | ["modcell", l, c, kind, op, v] =>
+      match parseVal v with
+      | some x => do
+          if kind = "ufunc" || kind = "fn" then
+            pure (.modifyCellU (← l.toNat?) (← parseCoord c) (← parseUOp op) x)
+          else none
+      | none => do pure (.modifyCell (← l.toNat?) (← parseCoord c) (← parseOper kind op v))
+  | ["fromdata", n, h] => do pure (.fromData n (← h.toNat?))
   | ["grab", h, l] => do pure (.grab (← h.toNat?) (← l.toNat?))
   | ["hget", h, c] => do pure (.hget (← h.toNat?) (← parseCoord c))
-  | ["hset", h, c, v] => do pure (.hset (← h.toNat?) (← parseCoord c) (← v.toInt?))
+  | ["hset", h, c, v] => do pure (.hset (← h.toNat?) (← parseCoord c) (← parseWVal v))
   | ["hdump", h] => do pure (.hdump (← h.toNat?))
   | ["dump", l] => do pure (.dump (← l.toNat?))
   | ["dumpn", n] => some (.dumpName n)
+  | ["gset", n] => some (.gridSet n)
+  | ["dtype", l] => do pure (.dtype (← l.toNat?))
   | ["lsel", l, cond] => do pure (.layerSelect (← l.toNat?) (← parsePred cond))
   | ["agg", l, k] => do
       let k ← (match k with | "sum" => some Agg.sum | "max" => some Agg.max | "min" => some Agg.min | _ => none)
@@ -139,6 +211,16 @@ def parseOp (dims : List Nat) : List String → Option Op
   | ["move", a, c] => do pure (.move (← a.toNat?) (← parseCoord c))
   | ["remove", a] => do pure (.remove (← a.toNat?))
   | ["empties"] => some .empties
+  | ["nbmask", k, c, ic, r] =>
+      -- new grids: Moore / von Neumann by the grid class; a hex grid has no geometry in the model
+      if impl != .new then none else
+      let geom : Option Bool := if geo.gridclass = "moore" then some true else if geo.gridclass = "vonneumann" then some false else none
+      do pure (.nbhdMask (← k.toNat?) geom geo.torus (← parseCoord c) (← parseFlag ic) (← r.toNat?))
+  | ["nbmask", k, c, ic, r, m] =>
+      if impl = .new then none else
+      do
+        let moore ← (if m = "moore" then some true else if m = "vn" then some false else none)
+        pure (.nbhdMask (← k.toNat?) (some moore) geo.torus (← parseCoord c) (← parseFlag ic) (← r.toNat?))
   | ["select", oe, conds, ext, masks, save] => do
       let oe ← kv "oe" oe
       let oe ← (if oe = "1" then some true else if oe = "0" then some false else none)
@@ -158,12 +240,14 @@ def fmtInts (vs : List Int) : String := ",".intercalate (vs.map toString)
 
 def fmtWhy : Why → String
   | .dims => "dims" | .exists => "exists" | .clash => "clash" | .ufunc => "ufunc" | .mode => "mode" | .empty => "empty"
+  | .radius => "radius"
 
 def fmtErr : Err → String
   | .value w => "err Value " ++ fmtWhy w
   | .key => "err Key"
   | .attr => "err Attr"
   | .index => "err Index"
+  | .type => "err Type"
   | .full => "err Full"
   | .placed => "err Placed"
   | .notPlaced => "err NotPlaced"
@@ -171,6 +255,7 @@ def fmtErr : Err → String
   | .noHandle => "err NoHandle"
   | .noMask => "err NoMask"
   | .impl => "err Impl"
+  | .shadowed => "err Shadowed"
 
 def fmtOut : Out → String
   | .ok => "ok"
@@ -180,6 +265,7 @@ def fmtOut : Out → String
   | .sel l m => "ok list=" ++ ";".intercalate (l.map fmtCoord) ++ " mask=" ++ fmtBits m
   | .emp view actual =>
       "ok view=" ++ (match view with | none => "none" | some vs => fmtInts vs) ++ " actual=" ++ fmtBits actual
+  | .dt d => "ok dt=" ++ fmtDType d
   | .err e => fmtErr e
 
 def parseImpl : String → Option Impl
@@ -188,20 +274,21 @@ def parseImpl : String → Option Impl
   | "multi" => some .multi
   | _ => none
 
-def stepLine (st : State) (ws : List String) : State × String :=
+def stepLine (st : State × Geo) (ws : List String) : (State × Geo) × String :=
   match ws with
   | ["scenario", k, dims, cap, gridclass, torus] =>
-      -- grid class and torus flag only select which mesa class the harness instantiates
-      if !(["moore", "vonneumann", "hex", "-"].contains gridclass && ["0", "1"].contains torus) then (st, "bad-op") else
-      match parseImpl k, parseDims dims, cap.toNat? with
-      | some k, some dims, some cap => (init k dims cap, "ok")
-      | _, _, _ => (st, "bad-op")
+      -- grid class and torus flag select which mesa class the harness instantiates; the model needs them only
+      -- for neighbourhood masks (they are arguments of that op)
+      if !(["moore", "vonneumann", "hex", "-"].contains gridclass) then (st, "bad-op") else
+      match parseImpl k, parseDims dims, cap.toNat?, parseFlag torus with
+      | some k, some dims, some cap, some torus => ((init k dims cap, ⟨gridclass, torus⟩), "ok")
+      | _, _, _, _ => (st, "bad-op")
   | ws =>
-      match parseOp st.dims ws with
+      match parseOp st.1.dims st.1.impl st.2 ws with
       | none => (st, "bad-op")
-      | some op => let (st', o) := step st op; (st', fmtOut o)
+      | some op => let (st', o) := step st.1 op; ((st', st.2), fmtOut o)
 
-partial def loop (h : IO.FS.Stream) (out : IO.FS.Stream) (st : State) : IO Unit := do
+partial def loop (h : IO.FS.Stream) (out : IO.FS.Stream) (st : State × Geo) : IO Unit := do
   let line ← h.getLine
   if line.isEmpty then return ()
   let (st', o) := stepLine st (words line.trimAscii.toString)
@@ -210,5 +297,5 @@ partial def loop (h : IO.FS.Stream) (out : IO.FS.Stream) (st : State) : IO Unit 
 
 def main : IO Unit := do
   let out ← IO.getStdout
-  loop (← IO.getStdin) out (init .new [1, 1] 0)
+  loop (← IO.getStdin) out (init .new [1, 1] 0, ⟨"moore", false⟩)
   out.flush
